@@ -12,6 +12,13 @@
 //! driver reports as undecided (exit 2), never as a violation.
 #![allow(dead_code)]
 
+/// `*slot = v` for a slot that is known to be empty: the old (empty) value is forgotten instead of
+/// dropped, so CBMC does not have to execute drop glue (a loop over a phantom Vec<Node> with 22 Arc
+/// decrements, say) for a value whose emptiness it cannot see statically.
+fn put_into_empty<T>(slot: &mut Option<T>, v: Option<T>) {
+    core::mem::forget(core::mem::replace(slot, v));
+}
+
 pub struct HashMap<K, V> {
     // INLINE slots: CBMC does not propagate constants through heap objects (a boxed entry made the
     // stored query's enum discriminants and Vec lengths symbolic, and Core::handle_response then
@@ -79,9 +86,9 @@ impl<K: PartialEq, V> HashMap<K, V> {
             return self.b.as_mut().map(|e| core::mem::replace(&mut e.1, v));
         }
         if self.a.is_none() {
-            self.a = Some((k, v));
+            put_into_empty(&mut self.a, Some((k, v)));
         } else if self.b.is_none() {
-            self.b = Some((k, v));
+            put_into_empty(&mut self.b, Some((k, v)));
         } else {
             panic!("VERIF-MODEL-BOUND: the HashMap stand-in holds at most 2 entries");
         }
@@ -184,10 +191,10 @@ impl<'a, K: PartialEq, V> Entry<'a, K, V> {
             // cannot return the reference from insert(); look it up again below
             let Entry { map, key } = self;
             if map.a.is_none() {
-                map.a = Some((key, default));
+                put_into_empty(&mut map.a, Some((key, default)));
                 return map.a.as_mut().map(|e| &mut e.1).unwrap();
             } else if map.b.is_none() {
-                map.b = Some((key, default));
+                put_into_empty(&mut map.b, Some((key, default)));
                 return map.b.as_mut().map(|e| &mut e.1).unwrap();
             } else {
                 panic!("VERIF-MODEL-BOUND: the HashMap stand-in holds at most 2 entries");
@@ -352,24 +359,28 @@ impl<K: Ord, V> BTreeMap<K, V> {
     fn insert_new(&mut self, k: K, v: V) {
         let e = (k, v);
         if self.a.is_none() {
-            self.a = Some(e);
+            put_into_empty(&mut self.a, Some(e));
         } else if self.b.is_none() {
             if e.0 < self.a.as_ref().unwrap().0 {
-                self.b = self.a.take();
-                self.a = Some(e);
+                let a = self.a.take();
+                put_into_empty(&mut self.b, a);
+                put_into_empty(&mut self.a, Some(e));
             } else {
-                self.b = Some(e);
+                put_into_empty(&mut self.b, Some(e));
             }
         } else if self.c.is_none() {
             if e.0 < self.a.as_ref().unwrap().0 {
-                self.c = self.b.take();
-                self.b = self.a.take();
-                self.a = Some(e);
+                let b = self.b.take();
+                put_into_empty(&mut self.c, b);
+                let a = self.a.take();
+                put_into_empty(&mut self.b, a);
+                put_into_empty(&mut self.a, Some(e));
             } else if e.0 < self.b.as_ref().unwrap().0 {
-                self.c = self.b.take();
-                self.b = Some(e);
+                let b = self.b.take();
+                put_into_empty(&mut self.c, b);
+                put_into_empty(&mut self.b, Some(e));
             } else {
-                self.c = Some(e);
+                put_into_empty(&mut self.c, Some(e));
             }
         } else {
             panic!("VERIF-MODEL-BOUND: the BTreeMap stand-in holds at most 3 entries");
